@@ -315,6 +315,37 @@ pub fn run(rec: &mut Recorder, w: &mut World, tier: &str, seed: u64) {
             }
         }
     }
+    // ---- decisions after the role graph was rebuilt or handed over: a reload or clear that leaves no role link at all (with the
+    //      role's permission stored again), and a role manager installed while links are built by hand ----
+    {
+        let rb = ks.iter().find(|k| k.name == "rbac").unwrap().clone();
+        let m = model_of(&rb, E_ALLOW, false, "", false);
+        let reqs: Vec<Vec<String>> = ["alice", "bob", "admin"].iter().flat_map(|s| ["data1", "data2"].iter().map(move |o| vec![sval(s), sval(o), sval("read")])).collect();
+        let reqf = enc_reqs(&reqs);
+        let start = vec![sv(&["p", "p", "admin", "data1", "read"]), sv(&["p", "p", "bob", "data2", "read"]), sv(&["g", "g", "alice", "admin"])];
+        for variant in 0..5usize {
+            rec.begin();
+            if new_enforcer(rec, w, &m, "memory", &start, "", false) != "ok" { rec.count("new:failed"); continue; }
+            let out = rec.exec(w, &format!("e.enfs\t{}", reqf)); tally(rec, &out);
+            match variant {
+                0 => { rec.exec(w, "e.clear"); rec.exec(w, &MOp::Add("p".into(), "p".into(), sv(&["admin", "data1", "read"])).line()); }
+                1 => { rec.exec(w, &format!("e.setadapter\tmemory\t{}\t", enc_lists(&[sv(&["p", "p", "admin", "data1", "read"])]))); }
+                2 => { rec.exec(w, "e.auto\tbuild\tfalse"); rec.exec(w, &MOp::Rm("g".into(), "g".into(), sv(&["alice", "admin"])).line()); rec.exec(w, "e.build"); }
+                _ => {
+                    rec.exec(w, "e.auto\tbuild\tfalse"); rec.exec(w, "e.setrm"); rec.exec(w, "e.build");
+                    let out = rec.exec(w, &format!("e.enfs\t{}", reqf)); tally(rec, &out);
+                    rec.exec(w, &MOp::Rm("g".into(), "g".into(), sv(&["alice", "admin"])).line());
+                    rec.exec(w, &MOp::Add("g".into(), "g".into(), sv(&["bob", "admin"])).line());
+                    rec.exec(w, "e.build");
+                    if variant == 4 { let out = rec.exec(w, &format!("e.enfs\t{}", reqf)); tally(rec, &out);
+                        rec.exec(w, "e.auto\tbuild\ttrue"); rec.exec(w, &MOp::Add("g".into(), "g".into(), sv(&["alice", "admin"])).line()); }
+                }
+            }
+            let out = rec.exec(w, &format!("e.enfs\t{}", reqf)); tally(rec, &out);
+            rec.count("kind:rbac-after-rebuild-or-handover");
+            rec.nontrivial_case(&format!("rebuilt|{}", variant));
+        }
+    }
     // ---- seeded random matcher expressions ----
     let n_rand = (if tier == "thorough" { 6000 } else { 1200 }) * rec.budget as usize;
     let base = &ks[4]; // rbac universes
